@@ -9,11 +9,20 @@ Level of this file: **operation lists of the trim writer** (`render/trimwriter.g
 with hyphens issues the operation list of the same template without hyphens plus `TrimLeft` /
 `TrimRight` operations (`eraseTrims` removes them again).
 
-* Part A: the laws on a generic alphabet with a whitespace predicate, for EVERY operation list.
+The machine is the repaired one (/repo 2593661): `Write` always flushes the previous buffer and
+then buffers the new text (left-stripped when a `TrimRight` is pending), so a write always
+consumes the flag and a `TrimLeft` only ever sees the text written last.
+
+* Part A: the laws on a generic alphabet with a whitespace predicate, for EVERY operation list:
+  erasure (`trim_subseq`, `trim_only_ws`, `trim_sublist`, `no_trim_identity`), the "faces text"
+  laws for EVERY text and position (`trimLeft_adjacent_all`, `trimRight_adjacent_all`) with their
+  special cases, and the statement of the repair (`trimLeft_sees_last_write_only`,
+  `write_commits_previous`, `buffer_is_last_write`).
 * Part B: the bridge to the byte-level model `TW.step` (which the `tw` stream compares with the
   real `trimWriter` call by call): for writes that are valid UTF-8 the byte machine is the image of
-  the generic machine under `encodeRunes`; byte-level corollaries; the counterexample that shows
-  the validity hypothesis cannot be dropped.
+  the generic machine under `encodeRunes`; byte-level corollaries; `tw_trimLeft_sees_last_write_only`
+  for ALL byte strings; the counterexample that shows the validity hypothesis cannot be dropped
+  from the erasure law.
 * Part C: facts about the underlying write calls (used by C20).
 
 Helper lemmas: `Proofs/TwLemmas.lean` (generic machine), `Proofs/TwBridge.lean` (UTF-8 bridge),
@@ -49,47 +58,75 @@ theorem erased_output_is_concat (ops : List (GOp α)) : out sp (eraseTrims ops) 
 theorem no_trim_identity (ops : List (GOp α)) (h : eraseTrims ops = ops) : out sp ops = writes ops := by
   rw [← h, out_eraseTrims, h]
 
+/-- **the "faces text" law, left side, for EVERY text and EVERY position**: a `TrimLeft` directly
+    after a write acts as the write of the right-stripped text. No exception for whitespace-only
+    or empty text, no condition on a pending `TrimRight` (then the text is stripped on both sides). -/
+theorem trimLeft_adjacent_all (pre post : List (GOp α)) (u : List α) :
+    out sp (pre ++ .write u :: .trimLeft :: post) = out sp (pre ++ .write (rstrip sp u) :: post) := by
+  rw [out_append, out_append, outFrom_write_trimLeft sp _ u post]
+
+/-- **the "faces text" law, right side, for EVERY text and EVERY position**: a `TrimRight` directly
+    before a write acts as the write of the left-stripped text. -/
+theorem trimRight_adjacent_all (pre post : List (GOp α)) (u : List α) :
+    out sp (pre ++ .trimRight :: .write u :: post) = out sp (pre ++ .write (lstrip sp u) :: post) := by
+  rw [out_append, out_append, outFrom_trimRight_write sp _ u post]
+
+/-- the pending-flag case of `trimLeft_adjacent_all` spelled out: text between a `TrimRight` and a
+    `TrimLeft` is stripped on both sides, and nothing else happens -/
+theorem trim_both_adjacent (pre post : List (GOp α)) (u : List α) :
+    out sp (pre ++ .trimRight :: .write u :: .trimLeft :: post) =
+      out sp (pre ++ .write (rstrip sp (lstrip sp u)) :: post) := by
+  rw [trimRight_adjacent_all, trimLeft_adjacent_all]
+
 /-- a `TrimLeft` directly after the write of a text with ink acts as the write of the
     right-stripped text — wherever it stands -/
-theorem trimLeft_adjacent (pre post : List (GOp α)) (u : List α) (hu : hasInk sp u = true) :
-    out sp (pre ++ .write u :: .trimLeft :: post) = out sp (pre ++ .write (rstrip sp u) :: post) := by
-  rw [out_append, out_append, outFrom_write_trimLeft sp _ u post (.inl hu)]
+theorem trimLeft_adjacent (pre post : List (GOp α)) (u : List α) (_hu : hasInk sp u = true) :
+    out sp (pre ++ .write u :: .trimLeft :: post) = out sp (pre ++ .write (rstrip sp u) :: post) :=
+  trimLeft_adjacent_all sp pre post u
 
 /-- the same for any text (whitespace-only or empty included: it is deleted entirely) when no
     `TrimRight` is pending -/
-theorem trimLeft_adjacent_noflag (pre post : List (GOp α)) (u : List α) (hf : flagAfter sp pre = false) :
-    out sp (pre ++ .write u :: .trimLeft :: post) = out sp (pre ++ .write (rstrip sp u) :: post) := by
-  rw [out_append, out_append, outFrom_write_trimLeft sp _ u post (.inr hf)]
+theorem trimLeft_adjacent_noflag (pre post : List (GOp α)) (u : List α) (_hf : flagAfter sp pre = false) :
+    out sp (pre ++ .write u :: .trimLeft :: post) = out sp (pre ++ .write (rstrip sp u) :: post) :=
+  trimLeft_adjacent_all sp pre post u
 
-/-- whitespace-only (or empty) text between a pending `TrimRight` and a `TrimLeft` is deleted
-    entirely and the `TrimLeft` reaches the text before it: exactly `TrimLeft` followed by an empty
-    write (which clears the flag) -/
-theorem trimLeft_adjacent_ws (pre post : List (GOp α)) (u : List α) (hu : hasInk sp u = false)
-    (hf : flagAfter sp pre = true) :
-    out sp (pre ++ .write u :: .trimLeft :: post) = out sp (pre ++ .trimLeft :: .write [] :: post) := by
-  rw [out_append, out_append, outFrom_write_trimLeft_ws sp _ u post hu hf]
+/-- whitespace-only (or empty) text before a `TrimLeft` is deleted entirely and NOTHING ELSE is:
+    what remains is an empty write (it flushes the earlier text unchanged and clears the flag).
+    Holds with or without a pending `TrimRight`. (The machine before repair 2593661 acted as
+    `[trimLeft, write []]` here when a `TrimRight` was pending: the `TrimLeft` reached the text
+    before the whitespace.) -/
+theorem trimLeft_adjacent_ws (pre post : List (GOp α)) (u : List α) (hu : hasInk sp u = false) :
+    out sp (pre ++ .write u :: .trimLeft :: post) = out sp (pre ++ .write [] :: post) := by
+  rw [trimLeft_adjacent_all, rstrip_of_no_ink sp u hu]
 
 /-- a `TrimRight` directly before the write of a text with ink acts as the write of the
     left-stripped text -/
-theorem trimRight_adjacent (pre post : List (GOp α)) (u : List α) (hu : hasInk sp u = true) :
-    out sp (pre ++ .trimRight :: .write u :: post) = out sp (pre ++ .write (lstrip sp u) :: post) := by
-  rw [out_append, out_append, outFrom_trimRight_write sp _ u post (.inl hu)]
+theorem trimRight_adjacent (pre post : List (GOp α)) (u : List α) (_hu : hasInk sp u = true) :
+    out sp (pre ++ .trimRight :: .write u :: post) = out sp (pre ++ .write (lstrip sp u) :: post) :=
+  trimRight_adjacent_all sp pre post u
 
 /-- the same for any text when a `TrimRight` was already pending -/
-theorem trimRight_adjacent_flag (pre post : List (GOp α)) (u : List α) (hf : flagAfter sp pre = true) :
-    out sp (pre ++ .trimRight :: .write u :: post) = out sp (pre ++ .write (lstrip sp u) :: post) := by
-  rw [out_append, out_append, outFrom_trimRight_write sp _ u post (.inr hf)]
+theorem trimRight_adjacent_flag (pre post : List (GOp α)) (u : List α) (_hf : flagAfter sp pre = true) :
+    out sp (pre ++ .trimRight :: .write u :: post) = out sp (pre ++ .write (lstrip sp u) :: post) :=
+  trimRight_adjacent_all sp pre post u
 
-/-- whitespace-only (or empty) text after a `TrimRight` is deleted entirely; what remains is an
-    empty write: it clears the flag and leaves the earlier text buffered (a later `TrimLeft` still
-    reaches it), which is NOT the same as `write (lstrip u)` when no flag was pending -/
+/-- whitespace-only (or empty) text after a `TrimRight` is deleted entirely and NOTHING ELSE is:
+    what remains is an empty write, which is the same as `write (lstrip u)` (before the repair it
+    was not: the earlier text stayed buffered and a later `TrimLeft` reached it) -/
 theorem trimRight_adjacent_ws (pre post : List (GOp α)) (u : List α) (hu : hasInk sp u = false) :
-    out sp (pre ++ .trimRight :: .write u :: post) = out sp (pre ++ .trimRight :: .write [] :: post) := by
-  rw [out_append, out_append, outFrom_trimRight_write_ws sp _ u post hu]
+    out sp (pre ++ .trimRight :: .write u :: post) = out sp (pre ++ .write [] :: post) := by
+  rw [trimRight_adjacent_all, lstrip_of_no_ink sp u hu]
 
-/-- an EMPTY write consumes the trim flag: `TrimRight` followed by an empty write is a no-op -/
+/-- an empty write flushes and clears the flag; with no flag pending it is exactly a `Flush` -/
+theorem empty_write_is_flush (pre post : List (GOp α)) (hf : flagAfter sp pre = false) :
+    out sp (pre ++ .write [] :: post) = out sp (pre ++ .flush :: post) := by
+  rw [out_append, out_append, outFrom_write_nil_noflag sp _ post hf]
+
+/-- an EMPTY write consumes the trim flag and flushes: `TrimRight` followed by an empty write
+    acts as a `Flush` (before the repair it was a no-op: the earlier text stayed within reach of a
+    later `TrimLeft`) -/
 theorem trimRight_empty_write (pre post : List (GOp α)) (hf : flagAfter sp pre = false) :
-    out sp (pre ++ .trimRight :: .write [] :: post) = out sp (pre ++ post) := by
+    out sp (pre ++ .trimRight :: .write [] :: post) = out sp (pre ++ .flush :: post) := by
   rw [out_append, out_append, outFrom_trimRight_empty_write sp _ post hf]
 
 /-- a `TrimRight` persists across a `TrimLeft` (`{{ a -}}{{- b }} text`: the text is still stripped) -/
@@ -101,6 +138,44 @@ theorem trimRight_persists_trimLeft (pre post : List (GOp α)) :
 theorem trimRight_persists_flush (pre post : List (GOp α)) :
     out sp (pre ++ .trimRight :: .flush :: post) = out sp (pre ++ .flush :: .trimRight :: post) := by
   rw [out_append, out_append, outFrom_trimRight_flush]
+
+/-- after a write the buffer holds that write only (left-stripped when a `TrimRight` was
+    pending), whatever came before, and the flag is clear -/
+theorem buffer_is_last_write (pre : List (GOp α)) (b : List α) :
+    (GTW.run sp {} (pre ++ [.write b])).1 =
+      { buf := if flagAfter sp pre then lstrip sp b else b, trim := false } :=
+  run_snoc_write sp {} pre b
+
+/-- a write commits everything before it: the output splits into the complete output of the list
+    that ends with the earlier write and a part that does not depend on that list -/
+theorem write_commits_previous (pre rest : List (GOp α)) (a b : List α) :
+    out sp (pre ++ .write a :: .write b :: rest) = out sp (pre ++ [.write a]) ++ out sp (.write b :: rest) ∧
+    out sp (pre ++ .write a :: .trimRight :: .write b :: rest) =
+      out sp (pre ++ [.write a]) ++ out sp (.trimRight :: .write b :: rest) :=
+  ⟨out_split_write_write sp pre rest a b, out_split_write_trimRight_write sp pre rest a b⟩
+
+/-- **the repair (2593661)**: a `TrimLeft` sees the last write only. Whatever `b` is (whitespace-only
+    and empty included), everything up to and including the earlier write `a` is output exactly as
+    if the operation list ended there; then comes the right-stripped `b`; then the output of `post`
+    from a fresh machine. -/
+theorem trimLeft_sees_last_write_only (pre post : List (GOp α)) (a b : List α) :
+    out sp (pre ++ .write a :: .write b :: .trimLeft :: post) =
+      out sp (pre ++ [.write a]) ++ rstrip sp b ++ out sp post := by
+  rw [out_split_write_write, out_write_trimLeft, List.append_assoc]
+
+/-- the same with a `TrimRight` pending before `write b` (`a -}} b {{-`): `b` is stripped on both
+    sides — it vanishes when it is whitespace-only — and `a` is still output in full. This is the
+    situation in which the machine before the repair also stripped the end of `a`. -/
+theorem trimLeft_sees_last_write_only_flag (pre post : List (GOp α)) (a b : List α) :
+    out sp (pre ++ .write a :: .trimRight :: .write b :: .trimLeft :: post) =
+      out sp (pre ++ [.write a]) ++ rstrip sp (lstrip sp b) ++ out sp post := by
+  rw [out_split_write_trimRight_write, out_trimRight_write_trimLeft, List.append_assoc]
+
+/-- in particular whitespace-only text between two hyphens costs the earlier write nothing -/
+theorem trimLeft_keeps_earlier_write (pre post : List (GOp α)) (a b : List α) (hb : hasInk sp b = false) :
+    out sp (pre ++ .write a :: .trimRight :: .write b :: .trimLeft :: post) =
+      out sp (pre ++ [.write a]) ++ out sp post := by
+  rw [trimLeft_sees_last_write_only_flag, lstrip_of_no_ink sp b hb, rstrip_nil, List.append_nil]
 
 end generic
 
@@ -121,32 +196,47 @@ example : out sp0 opsA ≠ out sp0 (eraseTrims opsA) := by decide
 -- no_trim_identity: hypothesis holds on a list with writes and a flush, whitespace is kept
 example : eraseTrims [GOp.write [0, 1, 0], .flush, .write [0], .write [2]] = [.write [0, 1, 0], .flush, .write [0], .write [2]]
     ∧ out sp0 [GOp.write [0, 1, 0], .flush, .write [0], .write [2]] = [0, 1, 0, 0, 2] := by decide
--- trimLeft_adjacent: `hasInk`, also with a pending TrimRight in front
+-- trimLeft_adjacent(_all): `hasInk`, also with a pending TrimRight in front
 example : hasInk sp0 [0, 1, 0] = true ∧
     out sp0 ([GOp.write [7, 0], .trimRight] ++ .write [0, 1, 0] :: .trimLeft :: [.write [2]]) = [7, 0, 1, 2] ∧
     rstrip sp0 [0, 1, 0] = [0, 1] := by decide
--- trimLeft_adjacent_noflag with whitespace-only text: the text disappears, the earlier text keeps its blank
-example : flagAfter sp0 [GOp.write [7, 0]] = false ∧
+-- trimLeft_adjacent_noflag / _ws with whitespace-only text: the text disappears, the earlier text keeps its blank
+example : flagAfter sp0 [GOp.write [7, 0]] = false ∧ hasInk sp0 [0, 0] = false ∧
     out sp0 ([GOp.write [7, 0]] ++ .write [0, 0] :: .trimLeft :: [.write [2]]) = [7, 0, 2] := by decide
--- trimLeft_adjacent_ws: with a pending TrimRight the TrimLeft reaches the earlier text
+-- trimLeft_adjacent_ws / trimLeft_keeps_earlier_write with a pending TrimRight: the whitespace-only
+-- text disappears and the earlier text STILL keeps its blank (the machine before the repair gave [7, 2])
 example : flagAfter sp0 [GOp.write [7, 0], .trimRight] = true ∧ hasInk sp0 [0, 0] = false ∧
-    out sp0 ([GOp.write [7, 0], .trimRight] ++ .write [0, 0] :: .trimLeft :: [.write [2]]) = [7, 2] := by decide
--- trimRight_adjacent
+    out sp0 ([GOp.write [7, 0], .trimRight] ++ .write [0, 0] :: .trimLeft :: [.write [2]]) = [7, 0, 2] ∧
+    out sp0 ([GOp.write [7, 0]] ++ .write [] :: [.write [2]]) = [7, 0, 2] := by decide
+-- trimRight_adjacent(_all)
 example : hasInk sp0 [0, 1, 0] = true ∧
     out sp0 ([GOp.write [7, 0]] ++ .trimRight :: .write [0, 1, 0] :: [.write [2]]) = [7, 0, 1, 0, 2] ∧
     lstrip sp0 [0, 1, 0] = [1, 0] := by decide
 -- trimRight_adjacent_flag
 example : flagAfter sp0 [GOp.write [7], .trimRight, .trimLeft] = true := by decide
--- trimRight_adjacent_ws differs from `write (lstrip u)` when a TrimLeft follows
+-- trimRight_adjacent_ws now agrees with `write (lstrip u)` also when a TrimLeft follows
 example : hasInk sp0 [0, 0] = false ∧
-    out sp0 ([GOp.write [7, 0]] ++ .trimRight :: .write [0, 0] :: [.trimLeft, .write [2]]) = [7, 2] ∧
+    out sp0 ([GOp.write [7, 0]] ++ .trimRight :: .write [0, 0] :: [.trimLeft, .write [2]]) = [7, 0, 2] ∧
     out sp0 ([GOp.write [7, 0]] ++ .write (lstrip sp0 [0, 0]) :: [.trimLeft, .write [2]]) = [7, 0, 2] := by decide
--- trimRight_empty_write: the empty write consumed the flag, `[0, 2]` keeps its blank
-example : flagAfter sp0 [GOp.write [7]] = false ∧
-    out sp0 ([GOp.write [7]] ++ .trimRight :: .write [] :: [.write [0, 2]]) = [7, 0, 2] := by decide
+-- trimRight_empty_write / empty_write_is_flush: the empty write consumed the flag (`[0, 2]` keeps its
+-- blank) and flushed (`[7, 0]` is out of reach of the TrimLeft); it is NOT a no-op
+example : flagAfter sp0 [GOp.write [7, 0]] = false ∧
+    out sp0 ([GOp.write [7, 0]] ++ .trimRight :: .write [] :: [.trimLeft, .write [0, 2]]) = [7, 0, 0, 2] ∧
+    out sp0 ([GOp.write [7, 0]] ++ .flush :: [.trimLeft, .write [0, 2]]) = [7, 0, 0, 2] ∧
+    out sp0 ([GOp.write [7, 0]] ++ [.trimLeft, .write [0, 2]]) = [7, 0, 2] := by decide
 -- trimRight_persists_trimLeft
 example : out sp0 ([GOp.write [7, 0]] ++ .trimRight :: .trimLeft :: [.write [0, 2]]) = [7, 2] := by decide
 example : out sp0 ([GOp.write [7, 0]] ++ .trimRight :: .flush :: [.write [0, 2]]) = [7, 0, 2] := by decide
+-- trimLeft_sees_last_write_only(_flag): `6 ␠ -}} ␠ 7 ␠ | ␠ 1 ␠ {{- 2`, the blank after 7 survives
+example : out sp0 ([GOp.write [6, 0], .trimRight] ++ .write [0, 7, 0] :: .write [0, 1, 0] :: .trimLeft :: [.write [2]])
+      = [6, 0, 7, 0, 0, 1, 2] ∧
+    out sp0 ([GOp.write [6, 0], .trimRight] ++ [.write [0, 7, 0]]) = [6, 0, 7, 0] ∧ rstrip sp0 [0, 1, 0] = [0, 1] ∧
+    out sp0 [GOp.write [2]] = [2] := by decide
+example : out sp0 ([GOp.write [6, 0]] ++ .write [7, 0] :: .trimRight :: .write [0, 0] :: .trimLeft :: [.write [2]])
+      = [6, 0, 7, 0, 2] ∧ rstrip sp0 (lstrip sp0 [0, 0]) = [] := by decide
+-- buffer_is_last_write
+example : (GTW.run sp0 {} ([GOp.write [6, 0], .trimRight] ++ [.write [0, 7, 0]])).1 = { buf := [7, 0], trim := false } := by
+  decide
 end examples_generic
 
 /-! ## Part B — the bridge to the byte-level model -/
@@ -217,10 +307,10 @@ theorem tw_erased_output_is_concat (ops : List WOp) : runOps (eraseTrims ops) = 
 theorem tw_no_trim_identity (ops : List WOp) (h : eraseTrims ops = ops) : runOps ops = wopWrites ops := by
   rw [← h, tw_erased_output_is_concat, h]
 
-/-- byte level, valid UTF-8: a `TrimLeft` directly after the write of a text with ink acts as the
-    write of `bytes.TrimRightFunc(text, unicode.IsSpace)` -/
-theorem tw_trimLeft_adjacent (pre post : List WOp) (u : Bytes) (hpre : ValidOps pre) (hpost : ValidOps post)
-    (hv : ValidUtf8 u) (hu : hasInkBytes u = true) :
+/-- byte level, valid UTF-8: a `TrimLeft` directly after the write of ANY text acts as the write of
+    `bytes.TrimRightFunc(text, unicode.IsSpace)`, with or without a pending `TrimRight` -/
+theorem tw_trimLeft_adjacent_all (pre post : List WOp) (u : Bytes) (hpre : ValidOps pre) (hpost : ValidOps post)
+    (hv : ValidUtf8 u) :
     runOps (pre ++ .write u :: .trimLeft :: post) = runOps (pre ++ .write (trimRightSpace u) :: post) := by
   have e := encodeRunes_decodeRunes_of_valid u hv
   have hsc := decodeRunes_all_scalar u
@@ -231,112 +321,90 @@ theorem tw_trimLeft_adjacent (pre post : List WOp) (u : Bytes) (hpre : ValidOps 
     (by intro op hop; simp at hop; rcases hop with rfl | rfl; exact hsc; trivial)
     (by intro op hop; simp at hop; subst hop; exact hsr)
     (by intro gpre gpost _ _
-        have := trimLeft_adjacent isSpaceRune gpre gpost (decodeRunes u) hu
+        have := trimLeft_adjacent_all isSpaceRune gpre gpost (decodeRunes u)
         simpa using this)
   simp only [List.map_cons, List.map_nil, encOp, e, ← trimRightSpace_encode _ hsc] at this
   simpa using this
+
+/-- byte level, valid UTF-8: a `TrimRight` directly before the write of ANY text acts as the write
+    of `bytes.TrimLeftFunc(text, unicode.IsSpace)` -/
+theorem tw_trimRight_adjacent_all (pre post : List WOp) (u : Bytes) (hpre : ValidOps pre) (hpost : ValidOps post)
+    (hv : ValidUtf8 u) :
+    runOps (pre ++ .trimRight :: .write u :: post) = runOps (pre ++ .write (trimLeftSpace u) :: post) := by
+  have e := encodeRunes_decodeRunes_of_valid u hv
+  have hsc := decodeRunes_all_scalar u
+  have hsl : ∀ r ∈ lstrip isSpaceRune (decodeRunes u), ValidScalar r := scalar_dropWhile hsc _
+  have := runOps_congr_middle pre post hpre hpost
+    [.trimRight, .write (decodeRunes u)] [.write (lstrip isSpaceRune (decodeRunes u))]
+    (by intro op hop; simp at hop; rcases hop with rfl | rfl; trivial; exact hsc)
+    (by intro op hop; simp at hop; subst hop; exact hsl)
+    (by intro gpre gpost _ _
+        have := trimRight_adjacent_all isSpaceRune gpre gpost (decodeRunes u)
+        simpa using this)
+  simp only [List.map_cons, List.map_nil, encOp, e, lstrip, ← trimLeftSpace_encode _ hsc] at this
+  simpa using this
+
+/-- blank valid UTF-8 is deleted entirely by either trim -/
+theorem tw_trimSpace_blank (u : Bytes) (hv : ValidUtf8 u) (hu : hasInkBytes u = false) :
+    trimRightSpace u = [] ∧ trimLeftSpace u = [] := by
+  have e := encodeRunes_decodeRunes_of_valid u hv
+  have hsc := decodeRunes_all_scalar u
+  constructor
+  · rw [← e, trimRightSpace_encode _ hsc, rstrip_of_no_ink isSpaceRune _ hu]; rfl
+  · have := lstrip_of_no_ink isSpaceRune _ hu
+    rw [← e, trimLeftSpace_encode _ hsc]
+    unfold lstrip at this
+    rw [this]; rfl
+
+/-- byte level, valid UTF-8: a `TrimLeft` directly after the write of a text with ink acts as the
+    write of `bytes.TrimRightFunc(text, unicode.IsSpace)` -/
+theorem tw_trimLeft_adjacent (pre post : List WOp) (u : Bytes) (hpre : ValidOps pre) (hpost : ValidOps post)
+    (hv : ValidUtf8 u) (_hu : hasInkBytes u = true) :
+    runOps (pre ++ .write u :: .trimLeft :: post) = runOps (pre ++ .write (trimRightSpace u) :: post) :=
+  tw_trimLeft_adjacent_all pre post u hpre hpost hv
 
 /-- byte level, valid UTF-8: a `TrimRight` directly before the write of a text with ink acts as
     the write of `bytes.TrimLeftFunc(text, unicode.IsSpace)` -/
 theorem tw_trimRight_adjacent (pre post : List WOp) (u : Bytes) (hpre : ValidOps pre) (hpost : ValidOps post)
-    (hv : ValidUtf8 u) (hu : hasInkBytes u = true) :
-    runOps (pre ++ .trimRight :: .write u :: post) = runOps (pre ++ .write (trimLeftSpace u) :: post) := by
-  have e := encodeRunes_decodeRunes_of_valid u hv
-  have hsc := decodeRunes_all_scalar u
-  have hsl : ∀ r ∈ lstrip isSpaceRune (decodeRunes u), ValidScalar r := scalar_dropWhile hsc _
-  have := runOps_congr_middle pre post hpre hpost
-    [.trimRight, .write (decodeRunes u)] [.write (lstrip isSpaceRune (decodeRunes u))]
-    (by intro op hop; simp at hop; rcases hop with rfl | rfl; trivial; exact hsc)
-    (by intro op hop; simp at hop; subst hop; exact hsl)
-    (by intro gpre gpost _ _
-        have := trimRight_adjacent isSpaceRune gpre gpost (decodeRunes u) hu
-        simpa using this)
-  simp only [List.map_cons, List.map_nil, encOp, e, lstrip, ← trimLeftSpace_encode _ hsc] at this
-  simpa using this
+    (hv : ValidUtf8 u) (_hu : hasInkBytes u = true) :
+    runOps (pre ++ .trimRight :: .write u :: post) = runOps (pre ++ .write (trimLeftSpace u) :: post) :=
+  tw_trimRight_adjacent_all pre post u hpre hpost hv
 
 /-- byte level, valid UTF-8: the same for any text (blank or empty included) when no `TrimRight` is pending -/
 theorem tw_trimLeft_adjacent_noflag (pre post : List WOp) (u : Bytes) (hpre : ValidOps pre) (hpost : ValidOps post)
-    (hv : ValidUtf8 u) (hf : twFlagAfter pre = false) :
-    runOps (pre ++ .write u :: .trimLeft :: post) = runOps (pre ++ .write (trimRightSpace u) :: post) := by
-  have e := encodeRunes_decodeRunes_of_valid u hv
-  have hsc := decodeRunes_all_scalar u
-  have hsr : ∀ r ∈ rstrip isSpaceRune (decodeRunes u), ValidScalar r := fun r hr =>
-    hsc r (((wsDeletion_rstrip isSpaceRune _).sublist isSpaceRune).subset hr)
-  have := runOps_congr_middle pre post hpre hpost
-    [.write (decodeRunes u), .trimLeft] [.write (rstrip isSpaceRune (decodeRunes u))]
-    (by intro op hop; simp at hop; rcases hop with rfl | rfl; exact hsc; trivial)
-    (by intro op hop; simp at hop; subst hop; exact hsr)
-    (by intro gpre gpost eg sg
-        have hf' : flagAfter isSpaceRune gpre = false := by rw [← flagAfter_enc gpre sg, eg]; exact hf
-        have := trimLeft_adjacent_noflag isSpaceRune gpre gpost (decodeRunes u) hf'
-        simpa using this)
-  simp only [List.map_cons, List.map_nil, encOp, e, ← trimRightSpace_encode _ hsc] at this
-  simpa using this
+    (hv : ValidUtf8 u) (_hf : twFlagAfter pre = false) :
+    runOps (pre ++ .write u :: .trimLeft :: post) = runOps (pre ++ .write (trimRightSpace u) :: post) :=
+  tw_trimLeft_adjacent_all pre post u hpre hpost hv
 
-/-- byte level, valid UTF-8: blank text between a pending `TrimRight` and a `TrimLeft` is deleted
-    and the `TrimLeft` reaches the text before it -/
+/-- byte level, valid UTF-8: blank text before a `TrimLeft` is deleted and nothing else is (an
+    empty write remains), with or without a pending `TrimRight` -/
 theorem tw_trimLeft_adjacent_ws (pre post : List WOp) (u : Bytes) (hpre : ValidOps pre) (hpost : ValidOps post)
-    (hv : ValidUtf8 u) (hu : hasInkBytes u = false) (hf : twFlagAfter pre = true) :
-    runOps (pre ++ .write u :: .trimLeft :: post) = runOps (pre ++ .trimLeft :: .write [] :: post) := by
-  have e := encodeRunes_decodeRunes_of_valid u hv
-  have hsc := decodeRunes_all_scalar u
-  have := runOps_congr_middle pre post hpre hpost
-    [.write (decodeRunes u), .trimLeft] [.trimLeft, .write []]
-    (by intro op hop; simp at hop; rcases hop with rfl | rfl; exact hsc; trivial)
-    (by intro op hop; simp at hop; rcases hop with rfl | rfl; trivial; intro r hr; cases hr)
-    (by intro gpre gpost eg sg
-        have hf' : flagAfter isSpaceRune gpre = true := by rw [← flagAfter_enc gpre sg, eg]; exact hf
-        have := trimLeft_adjacent_ws isSpaceRune gpre gpost (decodeRunes u) hu hf'
-        simpa using this)
-  simp only [List.map_cons, List.map_nil, encOp, e] at this
-  simpa [encodeRunes] using this
+    (hv : ValidUtf8 u) (hu : hasInkBytes u = false) :
+    runOps (pre ++ .write u :: .trimLeft :: post) = runOps (pre ++ .write [] :: post) := by
+  rw [tw_trimLeft_adjacent_all pre post u hpre hpost hv, (tw_trimSpace_blank u hv hu).1]
 
 /-- byte level, valid UTF-8: `TrimRight` before any text when a `TrimRight` was already pending -/
 theorem tw_trimRight_adjacent_flag (pre post : List WOp) (u : Bytes) (hpre : ValidOps pre) (hpost : ValidOps post)
-    (hv : ValidUtf8 u) (hf : twFlagAfter pre = true) :
-    runOps (pre ++ .trimRight :: .write u :: post) = runOps (pre ++ .write (trimLeftSpace u) :: post) := by
-  have e := encodeRunes_decodeRunes_of_valid u hv
-  have hsc := decodeRunes_all_scalar u
-  have hsl : ∀ r ∈ lstrip isSpaceRune (decodeRunes u), ValidScalar r := scalar_dropWhile hsc _
-  have := runOps_congr_middle pre post hpre hpost
-    [.trimRight, .write (decodeRunes u)] [.write (lstrip isSpaceRune (decodeRunes u))]
-    (by intro op hop; simp at hop; rcases hop with rfl | rfl; trivial; exact hsc)
-    (by intro op hop; simp at hop; subst hop; exact hsl)
-    (by intro gpre gpost eg sg
-        have hf' : flagAfter isSpaceRune gpre = true := by rw [← flagAfter_enc gpre sg, eg]; exact hf
-        have := trimRight_adjacent_flag isSpaceRune gpre gpost (decodeRunes u) hf'
-        simpa using this)
-  simp only [List.map_cons, List.map_nil, encOp, e, lstrip, ← trimLeftSpace_encode _ hsc] at this
-  simpa using this
+    (hv : ValidUtf8 u) (_hf : twFlagAfter pre = true) :
+    runOps (pre ++ .trimRight :: .write u :: post) = runOps (pre ++ .write (trimLeftSpace u) :: post) :=
+  tw_trimRight_adjacent_all pre post u hpre hpost hv
 
-/-- byte level, valid UTF-8: blank text after a `TrimRight` is deleted; an empty write remains -/
+/-- byte level, valid UTF-8: blank text after a `TrimRight` is deleted and nothing else is; an empty write remains -/
 theorem tw_trimRight_adjacent_ws (pre post : List WOp) (u : Bytes) (hpre : ValidOps pre) (hpost : ValidOps post)
     (hv : ValidUtf8 u) (hu : hasInkBytes u = false) :
-    runOps (pre ++ .trimRight :: .write u :: post) = runOps (pre ++ .trimRight :: .write [] :: post) := by
-  have e := encodeRunes_decodeRunes_of_valid u hv
-  have hsc := decodeRunes_all_scalar u
-  have := runOps_congr_middle pre post hpre hpost
-    [.trimRight, .write (decodeRunes u)] [.trimRight, .write []]
-    (by intro op hop; simp at hop; rcases hop with rfl | rfl; trivial; exact hsc)
-    (by intro op hop; simp at hop; rcases hop with rfl | rfl; trivial; intro r hr; cases hr)
-    (by intro gpre gpost _ _
-        have := trimRight_adjacent_ws isSpaceRune gpre gpost (decodeRunes u) hu
-        simpa using this)
-  simp only [List.map_cons, List.map_nil, encOp, e] at this
-  simpa [encodeRunes] using this
+    runOps (pre ++ .trimRight :: .write u :: post) = runOps (pre ++ .write [] :: post) := by
+  rw [tw_trimRight_adjacent_all pre post u hpre hpost hv, (tw_trimSpace_blank u hv hu).2]
 
-/-- byte level, ALL byte strings: `TrimRight` followed by an empty write is a no-op when no flag
-    was pending (the empty write consumes the flag) -/
+/-- byte level, ALL byte strings: `TrimRight` followed by an empty write acts as a `Flush` when no
+    flag was pending (the empty write consumes the flag and flushes) -/
 theorem tw_trimRight_empty_write (pre post : List WOp) (hf : twFlagAfter pre = false) :
-    runOps (pre ++ .trimRight :: .write [] :: post) = runOps (pre ++ post) := by
-  unfold runOps
-  simp only [List.append_assoc, List.cons_append]
-  rw [tw_run_append, tw_run_append {} pre]
+    runOps (pre ++ .trimRight :: .write [] :: post) = runOps (pre ++ .flush :: post) := by
+  rw [runOps_append, runOps_append, twOutFrom_trimRight, twOutFrom_write, twOutFrom_flush]
   generalize hT : TW.run {} pre = T at hf ⊢
   obtain ⟨⟨buf, trim⟩, calls⟩ := T
   have : trim = false := by simpa [twFlagAfter, hT] using hf
   subst this
-  simp [TW.run, TW.step, trimLeftSpace, trimLeftSpaceAux]
+  rfl
 
 /-- byte level, ALL byte strings: a `TrimRight` persists across `TrimLeft` and `Flush` -/
 theorem tw_trimRight_persists (pre post : List WOp) :
@@ -347,13 +415,47 @@ theorem tw_trimRight_persists (pre post : List WOp) :
   rw [tw_run_append, tw_run_append {} pre, tw_run_append {} pre, tw_run_append {} pre]
   simp [TW.run, TW.step]
 
+/-- byte level, ALL byte strings: after a write the buffer holds that write only -/
+theorem tw_buffer_is_last_write (pre : List WOp) (b : Bytes) :
+    (TW.run {} (pre ++ [.write b])).1 =
+      { buf := if twFlagAfter pre then trimLeftSpace b else b, trim := false } := by
+  rw [tw_run_append]; rfl
+
+/-- byte level, ALL byte strings (valid UTF-8 or not) — **the repair (2593661)**: a `TrimLeft` sees
+    the last write only; everything up to and including the earlier write `a` is output as if the
+    list ended there, then `bytes.TrimRightFunc(b, unicode.IsSpace)`, then the output of `post` -/
+theorem tw_trimLeft_sees_last_write_only (pre post : List WOp) (a b : Bytes) :
+    runOps (pre ++ .write a :: .write b :: .trimLeft :: post) =
+      runOps (pre ++ [.write a]) ++ trimRightSpace b ++ runOps post := by
+  rw [runOps_append, runOps_append, twOutFrom_write, twOutFrom_write, twOutFrom_trimLeft, twOutFrom_write,
+    twOutFrom_nil, runOps_eq_twOutFrom]
+  simp only [List.append_assoc, Bool.false_eq_true, if_false]
+
+/-- byte level, ALL byte strings: the same with a `TrimRight` pending before `write b`; `b` is
+    stripped on both sides, `a` is output in full -/
+theorem tw_trimLeft_sees_last_write_only_flag (pre post : List WOp) (a b : Bytes) :
+    runOps (pre ++ .write a :: .trimRight :: .write b :: .trimLeft :: post) =
+      runOps (pre ++ [.write a]) ++ trimRightSpace (trimLeftSpace b) ++ runOps post := by
+  rw [runOps_append, runOps_append, twOutFrom_write, twOutFrom_trimRight, twOutFrom_write, twOutFrom_trimLeft,
+    twOutFrom_write, twOutFrom_nil, runOps_eq_twOutFrom]
+  simp only [List.append_assoc, if_true]
+
+/-- byte level: blank valid UTF-8 between two hyphens costs the earlier write nothing -/
+theorem tw_trimLeft_keeps_earlier_write (pre post : List WOp) (a b : Bytes) (hv : ValidUtf8 b)
+    (hb : hasInkBytes b = false) :
+    runOps (pre ++ .write a :: .trimRight :: .write b :: .trimLeft :: post) =
+      runOps (pre ++ [.write a]) ++ runOps post := by
+  rw [tw_trimLeft_sees_last_write_only_flag, (tw_trimSpace_blank b hv hb).2]
+  simp [trimRightSpace, trimRightSpaceRevAux]
+
 /-- the operation list of the counterexample: `x 0xC2`, TrimRight, `␠ 0xA0 y` -/
 def twBadOps : List WOp := [.write [0x78, 0xC2], .trimRight, .write [0x20, 0xA0, 0x79]]
 
-/-- On INVALID UTF-8 the byte-level erasure law is false: stripping the ASCII space joins `0xC2`
-    and `0xA0` into U+00A0, a whitespace rune that neither write contained; with the trim the
-    stripped output is `xy`, without it `x U+FFFD U+FFFD y`. So `ValidOps` cannot be dropped from
-    `tw_trim_only_ws` / `tw_trim_subseq`. -/
+/-- On INVALID UTF-8 the byte-level erasure law is false, on the repaired machine too (the
+    join happens in the OUTPUT, not in the buffer: `x 0xC2` is flushed, then `0xA0 y` follows it):
+    stripping the ASCII space joins `0xC2` and `0xA0` into U+00A0, a whitespace rune that neither
+    write contained; with the trim the stripped output is `xy`, without it `x U+FFFD U+FFFD y`. So
+    `ValidOps` cannot be dropped from `tw_trim_only_ws` / `tw_trim_subseq`. -/
 theorem tw_erasure_fails_on_invalid_utf8 :
     runOps twBadOps = [0x78, 0xC2, 0xA0, 0x79] ∧
     runOps (eraseTrims twBadOps) = [0x78, 0xC2, 0x20, 0xA0, 0x79] ∧
@@ -398,17 +500,29 @@ example : eraseTrims [WOp.write [0xC2], .flush, .write [0x20, 0xA0]] = [WOp.writ
 example : hasInkBytes [0x20, 0xC2, 0xA0, 0x78, 0x20] = true ∧
     trimRightSpace [0x20, 0xC2, 0xA0, 0x78, 0x20] = [0x20, 0xC2, 0xA0, 0x78] ∧
     trimLeftSpace [0x20, 0xC2, 0xA0, 0x78, 0x20] = [0x78, 0x20] := by decide
--- blank text (space, NBSP) between a pending TrimRight and a TrimLeft: deleted, and the TrimLeft reaches `x␠`
+-- blank text (space, NBSP) between a pending TrimRight and a TrimLeft: deleted, and `x␠` KEEPS its blank
+-- (tw_trimLeft_adjacent_ws, tw_trimLeft_keeps_earlier_write; before the repair the result was `xy`)
 example : twFlagAfter [.write [0x78, 0x20], .trimRight] = true ∧ hasInkBytes [0x20, 0xC2, 0xA0] = false ∧
     runOps ([.write [0x78, 0x20], .trimRight] ++ .write [0x20, 0xC2, 0xA0] :: .trimLeft :: [.write [0x79]])
-      = [0x78, 0x79] := by decide
+      = [0x78, 0x20, 0x79] ∧
+    runOps ([.write [0x78, 0x20], .trimRight] ++ .write [] :: [.write [0x79]]) = [0x78, 0x20, 0x79] := by decide
 -- no pending flag: the blank text is deleted, `x␠` keeps its blank
 example : twFlagAfter [.write [0x78, 0x20]] = false ∧
     runOps ([.write [0x78, 0x20]] ++ .write [0x20, 0xC2, 0xA0] :: .trimLeft :: [.write [0x79]])
       = [0x78, 0x20, 0x79] := by decide
--- the empty write consumed the flag: `␠y` keeps its blank; and a TrimRight survives a TrimLeft
+-- the empty write consumed the flag (`␠y` keeps its blank) and flushed (`x␠` is out of reach of the
+-- TrimLeft, as after a Flush); and a TrimRight survives a TrimLeft
 example : runOps ([.write [0x78]] ++ .trimRight :: .write [] :: [.write [0x20, 0x79]]) = [0x78, 0x20, 0x79] ∧
+    runOps ([.write [0x78, 0x20]] ++ .trimRight :: .write [] :: [.trimLeft, .write [0x79]]) = [0x78, 0x20, 0x79] ∧
+    runOps ([.write [0x78, 0x20]] ++ .flush :: [.trimLeft, .write [0x79]]) = [0x78, 0x20, 0x79] ∧
     runOps ([.write [0x78, 0x20]] ++ .trimRight :: .trimLeft :: [.write [0x20, 0x79]]) = [0x78, 0x79] := by decide
+-- tw_trimLeft_sees_last_write_only on INVALID bytes: `C2 ␠` | `A0 ␠` TrimLeft `y`
+example : runOps ([] ++ .write [0xC2, 0x20] :: .write [0xA0, 0x20] :: .trimLeft :: [.write [0x79]])
+      = [0xC2, 0x20, 0xA0, 0x79] ∧
+    runOps ([] ++ [.write [0xC2, 0x20]]) = [0xC2, 0x20] ∧ trimRightSpace [0xA0, 0x20] = [0xA0] := by decide
+-- tw_trimLeft_sees_last_write_only_flag: `é␠` -}} `␠U+00A0` {{- `y`
+example : runOps ([] ++ .write [0xC3, 0xA9, 0x20] :: .trimRight :: .write [0x20, 0xC2, 0xA0] :: .trimLeft :: [.write [0x79]])
+      = [0xC3, 0xA9, 0x20, 0x79] ∧ trimRightSpace (trimLeftSpace [0x20, 0xC2, 0xA0]) = [] := by decide
 end examples_bytes
 
 /-! ## Part C — the underlying write calls (for C20) -/
